@@ -105,6 +105,29 @@ def alias_probe(ctx, op, inp, result):
                 if sum(len(v) for v in m.objs.values()):
                     m.stack().offset *= 2
                     paths += 1
+            # mutable file-level fields of the result (tag lists, per-level lists of a set, sample tables): edited in place
+            import dataclasses
+            holders = []
+            for r in (result if isinstance(result, list) else [result]):
+                if is_mapset(r):
+                    holders += [r] + list(r.maps)
+                elif is_map(r):
+                    holders.append(r)
+            for h in holders:
+                if not dataclasses.is_dataclass(h):
+                    continue
+                for f in dataclasses.fields(h):
+                    if f.name in ("objs", "maps"):
+                        continue
+                    v = getattr(h, f.name, None)
+                    if isinstance(v, list):
+                        v.append("rv-sentinel" if not v or isinstance(v[0], str) else v[0])
+                        if v and isinstance(v[0], (int, float)) and not isinstance(v[0], bool):
+                            v[0] = v[0] + 5
+                        paths += 1
+                    elif isinstance(v, dict):
+                        v["rv-sentinel"] = "x"
+                        paths += 1
         except Exception as e:
             ctx.counters["c14.alias|mutation_path_raised"] += 1
         d = diff_snapshots(before, snapshot(inp))
